@@ -827,3 +827,86 @@ def gen_loops():
 if __name__ == '__main__':
     t, d = gen_loops()
     print(t['ReproDefs'])
+
+
+# ------------------------------------------------------------------ Node.find_node
+def read_find(fn):
+    if fn is None:
+        return '(.unknown "method missing")'
+    stmts = body_of(fn)
+    pos = fn.args.args[1].arg if len(fn.args.args) == 2 else 'position'
+    pre = {'self.pre_order'}
+    node = [None]
+
+    def ref(e):
+        u = ast.unparse(e)
+        if node[0] and u == node[0]:
+            return '.node'
+        if isinstance(e, ast.Attribute) and e.attr == 'parent':
+            r = ref(e.value)
+            return f'(.parent {r})' if r else None
+        return None
+
+    def res(v):
+        if isinstance(v, ast.Tuple) and len(v.elts) == 2:
+            a, b = v.elts
+            if ast.unparse(a) == 'None' and ast.unparse(b) == 'False':
+                return '(.ret .none)'
+            if isinstance(b, ast.Attribute) and b.attr == 'flag' and ref(a) and ref(b.value):
+                return f'(.ret (.pair {ref(a)} {ref(b.value)}))'
+        return f'(.unknown {lean_str("return " + ast.unparse(v)[:40])})'
+
+    def prog(block, k):
+        if not block:
+            return k
+        st, rest = block[0], block[1:]
+        if isinstance(st, ast.Return) and st.value is not None:
+            return res(st.value)
+        if isinstance(st, ast.Assign) and len(st.targets) == 1 and isinstance(st.targets[0], ast.Name):
+            u = ast.unparse(st.value)
+            if u == 'self.pre_order':
+                pre.add(st.targets[0].id)
+                return prog(rest, k)
+        if isinstance(st, ast.If):
+            kr = prog(rest, k)
+            t = ast.unparse(st.test)
+            body = list(st.body)
+            if any(t == f'len({p_}) > {pos}' for p_ in pre) or any(t == f'{pos} < len({p_})' for p_ in pre):
+                if body and isinstance(body[0], ast.Assign) and len(body[0].targets) == 1 and isinstance(body[0].targets[0], ast.Name) \
+                        and any(ast.unparse(body[0].value) == f'{p_}[{pos}]' for p_ in pre):
+                    node[0] = body[0].targets[0].id
+                    return f'(.ifInRange {prog(body[1:], kr)} {prog(list(st.orelse), kr)})'
+                return f'(.unknown {lean_str("in-range branch does not bind the node")})'
+            if node[0] and t in (f"{node[0]}.type == 'TERMINAL'", f"{node[0]}.type == 'FUNCTION'"):
+                return f"(.ifType {'true' if 'TERMINAL' in t else 'false'} {prog(body, kr)} {prog(list(st.orelse), kr)})"
+            r = ref(st.test)
+            if r is None and isinstance(st.test, ast.Compare) and len(st.test.ops) == 1 and isinstance(st.test.ops[0], ast.IsNot) \
+                    and ast.unparse(st.test.comparators[0]) == 'None':
+                r = ref(st.test.left)
+            if r:
+                return f'(.ifRef {r} {prog(body, kr)} {prog(list(st.orelse), kr)})'
+        return f'(.unknown {lean_str(ast.unparse(st)[:50])})'
+    return prog(stmts, '(.unknown "falls off the end")')
+
+
+_old_gen_loops7 = gen_loops
+
+
+def gen_loops():
+    texts, data = _old_gen_loops7()
+    fp = read_find(find_method(f'{REPO}/opytimizer/core/node.py', 'Node', 'find_node'))
+    texts['FindDefs'] = '\n'.join(['-- GENERATED by harness/translate_loops.py from Node.find_node. Do not edit.',
+                                   'import OpyVerif.Model.FindProg', 'namespace Opy.Gen', 'open Opy', '',
+                                   f'def findProg : FProg := {fp}', '', 'end Opy.Gen', ''])
+    texts['Find'] = '\n'.join(['-- GENERATED by harness/translate_loops.py: obligations re-decided on every build. Do not edit.',
+                               'import OpyVerif.Generated.FindDefs', 'namespace Opy.Gen', 'open Opy',
+                               '/-- `Node.find_node` reads as the decision program `Proofs/FindProg.findProg_is_findNode` proves to be `findNode` -/',
+                               'theorem findProg_eq : findProg = Expected.findProg := by decide +kernel',
+                               'end Opy.Gen', ''])
+    data['find'] = fp
+    return texts, data
+
+
+if __name__ == '__main__':
+    t, d = gen_loops()
+    print(t['FindDefs'])
